@@ -114,7 +114,25 @@ def api_case(n, markers, perm, avail=None):
     return vcs
 
   def replay(v, w, path, structural):
-    return replay_api(n, markers, perm, w, avail)
+    first = replay_api(n, markers, perm, w, avail)
+    if first[0]:
+      return first
+    # not reproduced by a single construction: the same thing after other potentials (offering other derivatives) were
+    # built, differentiated and dropped in this process
+    import gc
+    variants = [[(False, False)] * n, [(True, True)] * n, [(True, False)] * n, [((i % 2) == 0, False) for i in range(n)]]
+    for rnd in range(12):
+      for var in variants:
+        try:
+          replay_api(n, markers, perm, w, var)
+        except Exception:  # noqa
+          pass
+        gc.collect()
+      again = replay_api(n, markers, perm, w, avail)
+      if again[0]:
+        return (True, again[1] + " (after other multi-range potentials, offering other derivative methods, were built, differentiated and dropped in this process)",
+                dict(again[2], history="other potentials built and dropped first"))
+    return first
 
   explore_and_check(res, fn, build, replay=replay, negative=lambda p: build(p, wrong=True),
                     explorer_kw=dict(max_paths=60000), max_seconds=300 if n < 5 else 1200)
